@@ -508,7 +508,7 @@ fn table_dispatch(ctx: &Ctx, arg: &dyn Fn(&str) -> Option<String>) {
 			// of its key (pre-specified, so the crypto-less build can write it) is imported, and the imported parameters
 			// are used with ANOTHER key (roll-over) and as an issuer whose children carry an authority key identifier.
 			// What an import recovers must not depend on the build: same to-be-signed bytes everywhere.
-			for n in 0..24usize {
+			for n in 0..32usize {
 				use crate::spec::{IsCaSpec, KidSpec, ParamSpec};
 				use crate::x509;
 				let case = crate::ctx::CaseId::new("import-rollover", ctx.seed, n as u64);
@@ -516,7 +516,9 @@ fn table_dispatch(ctx: &Ctx, arg: &dyn Fn(&str) -> Option<String>) {
 				let spki_a = a.kp.public_key_der();
 				let how = [KidSpec::Sha256, KidSpec::Sha384, KidSpec::Sha512, KidSpec::Pre(vec![n as u8; 20])][n % 4].clone();
 				let mut ca = ParamSpec::minimal();
-				ca.is_ca = IsCaSpec::Ca(None);
+				// the last eight: a certificate WITHOUT a subject key identifier (not a CA). A build may refuse to import it
+				// (the crypto-less one does: nothing to hash with); builds that accept it must agree on what follows.
+				ca.is_ca = if n < 24 { IsCaSpec::Ca(None) } else { IsCaSpec::No };
 				ca.serial = Some(vec![9, n as u8]);
 				ca.kid = KidSpec::Pre(how.derive(&spki_a));
 				let text = format!("CA key {} with identifier {:?} of its key, imported, re-issued under key {} and used as issuer", a.label, how, b.label);
